@@ -929,13 +929,32 @@ func (x *Exec) applyContract(s *State, ct *Contract, fn *types.Func, sig *types.
 		}
 	}
 	for _, fr := range ct.Fresh {
-		// fresh result references
+		// fresh result references: the result's reference leaf is replaced by a newly allocated one
+		// (never equated with the unconstrained result constant, which is below the allocation pointer)
 		env := x.contractEnv(s, old, ct, fn, sig, recv, args, rl)
-		if v, ok := env.vars[fr]; ok {
-			for _, r := range refsOf(v) {
-				nr := s.alloc("fresh")
-				s.assume(mkEq(r, nr))
+		v, ok := env.vars[fr]
+		if !ok {
+			continue
+		}
+		for i := range rl {
+			if !sameVal(rl[i], v) {
+				continue
 			}
+			nr := s.alloc("fresh")
+			switch rl[i].K {
+			case KSlice:
+				rl[i].Ref = nr
+			case KIface:
+				rl[i].Dat = nr
+			case KInt:
+				rl[i].S = nr
+				rl[i].Lo, rl[i].Hi = nil, nil
+			}
+		}
+		if len(rl) == 1 {
+			res = rl[0]
+		} else if len(rl) > 1 {
+			res.Fs = rl
 		}
 	}
 	post := x.contractEnv(s, old, ct, fn, sig, recv, args, rl)
